@@ -8,11 +8,20 @@
      each with its UB-freedom predicate: array reads inside the buffer, shift amounts in range, signed
      arithmetic without overflow, loops within their bound) under exactly the preconditions their callers
      establish, for arbitrary byte contents.
-   Not proved: that the pointer-walking layer above the leaves (hand-written Impl model) stays inside the
-   blocks it allocated; that part of the property is decided on the implementation by the check (every input
-   in an exact-size heap block under AddressSanitizer / UBSan, fork + watchdog).  Hence "partial". *)
+   - no undefined behaviour in the layer above the leaves either, at the level of the hand-written Impl model
+     (Proofs/UnpackSafe.v, with Shape / ScanCount / PackedCount / MergeSafe / TagRange / ParseSafe): for EVERY
+     environment the generator can emit (env_ok), every message type in it and EVERY byte string shorter than
+     2^31, the model of protobuf_c_message_unpack either rejects the input (EFail: the C function returns NULL)
+     or returns a well-shaped message of the requested type.  The model reports each thing C05 forbids as a
+     distinct error: an index outside the field table, the slot array, a oneof's storage or a repeated field's
+     element array (EOob -- the element count found by the scan bounds what the parse stores), a NULL
+     dereference (ENull), a slot or cell of the wrong kind (EDesc, EConfused), a failed assertion (EAssert),
+     running out of fuel (EFuel).  The theorem says none of these can be the result.
+   Not proved: that the C pointer arithmetic itself agrees with the model's list indexing (the model has no
+   heap); that tie is the correspondence check (every input in an exact-size heap block under
+   AddressSanitizer / UBSan, fork + watchdog, the model run on the same inputs).  Hence "partial". *)
 From Coq Require Import ZArith List Bool.
-From PBC Require Import Base.CInt Gen.LeafC Impl.Desc Impl.Mem Impl.Unpack Proofs.Lookup Proofs.LeafSafe Proofs.Terminates.
+From PBC Require Import Base.CInt Gen.LeafC Impl.Desc Impl.Mem Impl.Unpack Impl.Canon Proofs.Lookup Proofs.LeafSafe Proofs.Terminates Proofs.Shape Proofs.UnpackSafe Proofs.Examples.
 Import ListNotations.
 Local Open Scope Z_scope.
 
@@ -24,6 +33,27 @@ Print Assumptions C05_unpack_terminates.
 Theorem C05_top_level_terminates : forall (E : env) d data, unpack_top E d data <> Err EFuel.
 Proof. intros E d data. apply unpack_terminates. apply Nat.lt_succ_diag_r. Qed.
 Print Assumptions C05_top_level_terminates.
+
+(* the whole parser, model level: reject or a well-shaped message, nothing else *)
+Theorem C05_unpack_rejects_or_builds_a_well_shaped_message : forall (E : env) d data,
+  env_ok E = true -> LeafSafe.bytes data -> Mem.zlen data < 2147483648 -> (d < length E)%nat ->
+  unpack_top E d data = Err EFail \/
+  exists m, unpack_top E d data = Ok m /\ shape_msg E m = true /\ m_desc m = d.
+Proof. intros E d data EO. exact (unpack_top_total E EO d data). Qed.
+Print Assumptions C05_unpack_rejects_or_builds_a_well_shaped_message.
+
+Theorem C05_unpack_never_reports_undefined_behaviour : forall (E : env) d data e,
+  env_ok E = true -> LeafSafe.bytes data -> Mem.zlen data < 2147483648 -> (d < length E)%nat ->
+  unpack_top E d data = Err e -> e = EFail.
+Proof. intros E d data e EO. exact (unpack_never_ub E EO d data e). Qed.
+Print Assumptions C05_unpack_never_reports_undefined_behaviour.
+
+(* the hypotheses are satisfiable, both outcomes occur *)
+Example C05_nonvacuous :
+  env_ok ex_env = true /\
+  (exists m, unpack_top ex_env 0 [8; 150; 1; 26; 2; 1; 2; 58; 2; 8; 1] = Ok m) /\
+  unpack_top ex_env 0 [8; 150; 1; 26; 9; 1] = Err EFail.
+Proof. split; [exact ex_env_ok|]. split; [eexists; vm_compute; reflexivity | vm_compute; reflexivity]. Qed.
 
 (* the key parser never reads outside the rest of the input and never shifts out of range *)
 Theorem C05_key_parser_safe : forall d t w, d <> [] -> parse_tag_and_wiretype_ok (LeafSafe.zlen d) d t w = true.
